@@ -261,13 +261,19 @@ def run(ch, render=False):
                      "definition_differs")
             return False
         sf = same_first[key]
-        fv = full_view(defn) if sf[0] == "ok" else None        # taken before decoding, as in the baseline child
+        if sf[0] != "ok":
+            # these very bytes do NOT load as the first load of a pristine process, yet they loaded here
+            out.fail("loads_only_after_other_loads",
+                     f"{what}: this rendering loads in this history, but the same bytes fail as the first and only load of a "
+                     f"pristine process with {sf[1].split(':')[0]} ({rd_desc})", "loads_only_after_other_loads")
+            return False
+        fv = full_view(defn)        # taken before decoding, as in the baseline child
         dec = decode_all(defn, pkts[i])
         if dec != base[i][2]:
             out.fail("decode_differs", f"{what}: probe packets decode differently from the load-it-first baseline "
                                        f"({rd_desc})", "decode_differs")
             return False
-        if sf[0] == "ok":
+        if True:
             if fv[0] != sf[1][0]:
                 a, b = repr(fv[0]), repr(sf[1][0])
                 j = 0
